@@ -163,7 +163,7 @@ package roundrobin
 //@   props C01 C02 C11
 //@   modifies r.index, r.currentWeight
 //@   ensures empty_pool_fails: len(r.servers) == 0 ==> result1 != nil && result0 == nil
-//@   ensures {C01,C02,C09} fresh_copy: result1 == nil ==> result0 != nil && fresh(result0) && member(r, result0)
+//@   ensures {C01,C02,C09,C11,C20} fresh_copy: result1 == nil ==> result0 != nil && fresh(result0) && member(r, result0)
 //@   ensures positive_weight: result1 == nil ==> (exists i int :: 0 <= i && i < len(r.servers) && sameID(result0, r.servers[i].url) && r.servers[i].weight >= 1)
 
 //@ func SetDefaultWeight
